@@ -46,6 +46,11 @@ type ServerConn struct {
 	q     [][]byte
 	wake  chan struct{}
 	dead  bool
+	// Intercept (optional, set before any frame is served, e.g. in Node.OnConn): every byte string the
+	// server side is about to queue for this connection (handshake answers, OPTIONS answers, Reply) is
+	// offered to it first; if it returns true it has taken the bytes over and must emit them itself with
+	// WriteNow (one serialised output stream with scripted write boundaries and pauses).
+	Intercept func(b []byte) bool
 }
 
 // Reply sends a response frame (logs nothing by itself).
@@ -57,6 +62,9 @@ func (sc *ServerConn) Reply(stream int, op byte, body []byte) error {
 // WriteRaw queues bytes for the connection's writer goroutine (the queue plays the role of the
 // kernel's socket buffer: the server's reader never blocks on a slow client).
 func (sc *ServerConn) WriteRaw(b []byte) error {
+	if ic := sc.Intercept; ic != nil && ic(b) {
+		return nil
+	}
 	sc.wmu.Lock()
 	defer sc.wmu.Unlock()
 	if sc.dead {
@@ -68,6 +76,20 @@ func (sc *ServerConn) WriteRaw(b []byte) error {
 	default:
 	}
 	return nil
+}
+
+// WriteNow writes b to the connection synchronously as ONE write of the server's end (returns when the
+// driver has consumed it or the connection is gone). Only for connections whose whole output goes
+// through an Intercept-or, otherwise the bytes could interleave with the queue of WriteRaw.
+func (sc *ServerConn) WriteNow(b []byte) error {
+	sc.wmu.Lock()
+	dead := sc.dead
+	sc.wmu.Unlock()
+	if dead {
+		return net.ErrClosed
+	}
+	_, err := sc.c.Write(b)
+	return err
 }
 
 func (sc *ServerConn) writer() {
